@@ -12,6 +12,8 @@ from .pvals import *
 from .symex import Res, is_val, APP, APP_RAISES, APP_EXC, metacls, clsattr, PExcArgs, SENTINELS
 
 
+ENUM_KS = z3.Function("enum_ks", ArrVB, ArrVV, ArrIV)
+ENUM_POS = z3.Function("enum_pos", ArrVB, ArrVV, z3.ArraySort(Val, I))
 IT_N = z3.Function("it_n", Val, I)
 IT_ARR = z3.Function("it_arr", Val, ArrIV)
 
@@ -725,27 +727,32 @@ class Models:
 
     # ------------------------------------------------------------------ iteration
     def enum_dict(self, eng, st, a):
-        """enumeration of a dict/set: n, keys-in-order array, with the bijection axioms"""
-        key = ("enum", st.heap["dhas"].get_id(), st.heap["dkey"].get_id(), a.get_id())
-        hit = st.ghost.get(key)
-        if hit is not None and hit[3][0].eq(st.heap["dhas"]) and hit[3][1].eq(st.heap["dkey"]) and hit[3][2].eq(a):
-            return hit[:3]
-        n = fresh("dn", I)
-        ks = fresh("dks", ArrIV)
-        pos = z3.Function("dpos!%d" % n.get_id(), Val, I)
+        """enumeration of a dict/set: n, keys-in-iteration-order array, position map.  The order is a
+        function of the container's *content* (ENUM_KS/ENUM_POS over the has/key arrays), so two
+        enumerations of an unchanged container agree; the bijection facts are added to the state."""
         has, dk = st.get("dhas", a), st.get("dkey", a)
+        n = st.get("dsize", a)
+        ks = ENUM_KS(has, dk)
+        posa = ENUM_POS(has, dk)
+        pos = lambda k: z3.Select(posa, k)
+        key = ("enum", has.get_id(), dk.get_id())
+        hit = st.ghost.get(key)
+        if hit is not None and hit[0].eq(has) and hit[1].eq(dk):
+            return n, ks, pos
         i = z3.Int("i!en")
         k = z3.Const("k!en", Val)
-        st.assume(n == st.get("dsize", a), n >= 0)
+        st.assume(n >= 0)
         st.assume(z3.ForAll([i], z3.Implies(z3.And(i >= 0, i < n),
                   z3.And(z3.Select(has, kn(z3.Select(ks, i))), pos(kn(z3.Select(ks, i))) == i,
+                         z3.Not(is_absent(z3.Select(ks, i))),
                          z3.Select(dk, kn(z3.Select(ks, i))) == z3.Select(ks, i))),
                   patterns=[z3.Select(ks, i)]))
         st.assume(z3.ForAll([k], z3.Implies(z3.Select(has, k),
                   z3.And(pos(k) >= 0, pos(k) < n, kn(z3.Select(ks, pos(k))) == k)),
                   patterns=[z3.Select(has, k)]))
+        st.assume(z3.ForAll([i], z3.Implies(z3.Or(i < 0, i >= n), z3.Select(ks, i) == ABSENT), patterns=[z3.Select(ks, i)]))
         st.ghost = dict(st.ghost)
-        st.ghost[key] = (n, ks, pos, (st.heap["dhas"], st.heap["dkey"], a))
+        st.ghost[key] = (has, dk)
         return n, ks, pos
 
     def enum_idict(self, eng, st, a):
@@ -804,6 +811,9 @@ class Models:
             p.keys, p.pos, p.dval, p.addr = ks, pos, dv, v.addr
             if v.kind == "keys":
                 p.arr = ks
+            elif v.kind == "values":
+                jv = z3.Int("j!dv")
+                p.arr = z3.Lambda([jv], z3.If(z3.And(jv >= 0, jv < n), z3.Select(dv, kn(z3.Select(ks, jv))), ABSENT))
             return [Res("ok", st, p)]
         if isinstance(v, PKwargs):
             if v.rest is not None:
@@ -1374,6 +1384,27 @@ class Models:
         if len(vs) != 2 or not all(eng.valid(st, is_int(v)) for v in vs):
             raise Unsupported("max() of non-ints")
         return [Res("ok", st, vint(z3.If(i_of(vs[0]) >= i_of(vs[1]), i_of(vs[0]), i_of(vs[1]))))]
+
+    def bi_next(self, eng, st, pos, kw, fx):
+        p = pos[0]
+        if not isinstance(p, PSeq):
+            raise Unsupported("next() of a non-iterator")
+        if isinstance(p.n, int):
+            if p.n == 0:
+                return [eng.exc(st, "StopIteration")]
+            return [Res("ok", st, p.at(st, 0))]
+        out = []
+        for s2, b in eng.split(st, p.n > 0, note="iterator non-empty"):
+            if b:
+                v = p.at(s2, z3.IntVal(0))
+                if is_val(v):
+                    s2.assume(z3.Not(is_absent(v)))
+                out.append(Res("ok", s2, v))
+            elif len(pos) > 1:
+                out.append(Res("ok", s2, pos[1]))
+            else:
+                out.append(eng.exc(s2, "StopIteration"))
+        return out
 
     def bi_callable(self, eng, st, pos, kw, fx):
         x = pos[0]
